@@ -213,7 +213,7 @@ def falsify(ctx):
         cmps = (focus[i][1] if i < len(focus) else None) or common.cmps_choice(rng)
         try:
             hit = check_case(inputs, cmps, registry)
-        except ZeroDivisionError:
+        except (ZeroDivisionError, stages.TooCostly):
             continue
         except Exception as e:  # noqa
             hit = {"kind": "pipeline-raises", "observed": f"{type(e).__name__}: {e}"}
@@ -229,5 +229,7 @@ def replay(ctx, hit):
     from ..worker import cmps_from
     try:
         return check_case([tuple(x) for x in hit["input"]], cmps_from(hit["cmps"]), stages.make_registry())
+    except stages.TooCostly:
+        raise
     except Exception as e:  # noqa
         return {"kind": "pipeline-raises", "observed": f"{type(e).__name__}: {e}"}
